@@ -5,7 +5,7 @@ of the latest stored seed to the 'already taken' list."""
 import json, os, re, sys
 rnd, prev, root = int(sys.argv[1]), sys.argv[2], sys.argv[3]
 words = {5: "four", 6: "five", 7: "six", 8: "seven", 9: "eight", 10: "nine", 11: "ten", 12: "eleven", 13: "twelve", 14: "thirteen"}
-suffix = "abcdefghij"[rnd - 2]   # suffix of the latest stored round
+suffix = "abcdefghijklmnop"[rnd - 2]   # suffix of the latest stored round
 os.makedirs(os.path.join(root, "prompts"), exist_ok=True)
 for i in range(1, 21):
     p = "C%02d" % i
